@@ -244,9 +244,24 @@ pub fn disarm(slot: usize) -> ArenaStats {
 }
 
 pub fn disarm_sized(slot: usize, big: bool) -> ArenaStats {
+    release(detach_sized(slot, big))
+}
+
+/// A run's arena after the thread that used it stopped allocating from it, before its memory is given back.
+pub struct Detached {
+    st: ArenaState,
+    slot: usize,
+    big: bool,
+}
+// (plain addresses and counters; handed from the run's thread to the thread that releases the slot)
+unsafe impl Send for Detached {}
+
+/// Stop serving this thread from the arena (later allocations go to the system allocator, later frees of arena
+/// addresses are ignored) but keep the slot and its contents: thread-local destructors of the code under test may
+/// still read what they allocated during the run. `release` gives the slot back.
+pub fn detach_sized(slot: usize, big: bool) -> Detached {
     let st = ARENA.get();
     assert!(st.cur != 0);
-    let (base, _len, idx) = slot_geometry(slot, big);
     ARENA.set(ArenaState {
         cur: 0,
         end: 0,
@@ -262,6 +277,13 @@ pub fn disarm_sized(slot: usize, big: bool) -> ArenaStats {
         may_overflow: false,
     });
     OVERFLOWED.set(false);
+    Detached { st, slot, big }
+}
+
+/// Empty the slot(s) of a detached arena and mark them free. Nothing allocated in the arena may be touched afterwards.
+pub fn release(d: Detached) -> ArenaStats {
+    let st = d.st;
+    let (base, _len, idx) = slot_geometry(d.slot, d.big);
     let release = |base: usize, peak: usize, idx: usize| {
         unsafe {
             let used = (peak.saturating_sub(base) + 4095) & !4095;
